@@ -1426,8 +1426,8 @@ VARIANTS = [
     B('minmax-merge-min-with-max', _R,
       '    self._min = np.min((self._min, other.min), axis=self.axis)',
       '    self._min = np.max((self._min, other.min), axis=self.axis)', 'R-C01-1'),
-    B('rregression-crossed', _R, '    self.sum_x += other.sum_x\n',
-      '    self.sum_x += other.sum_y\n', 'R-C01-5'),
+    B('rregression-crossed', _R, '    self.sum_x = self.sum_x + other.sum_x\n',
+      '    self.sum_x = self.sum_x + other.sum_y\n', 'R-C01-5'),
     B('cm-iadd-crossed', _C, '    self.fp += other.fp\n    self.fn += other.fn\n    return self',
       '    self.fp += other.fn\n    self.fn += other.fp\n    return self', 'R-C01-5'),
     B('cm-add-drops-tn', _C, '    tn = self.tn + other.tn\n', '    tn = self.tn\n', 'R-C01-1'),
@@ -1454,6 +1454,6 @@ VARIANTS = [
     OK('cm-add-via-locals', _C, '    tn = self.tn + other.tn\n',
        '    tn = other.tn + self.tn if False else self.tn + other.tn\n'),
     OK('drop-input-shape-bookkeeping-free', _R,
-       '    self.num_samples += other.num_samples\n    self.sum_x += other.sum_x',
-       '    self.sum_x += other.sum_x\n    self.num_samples += other.num_samples'),
+       '    self.num_samples += other.num_samples\n    self.sum_x = self.sum_x + other.sum_x',
+       '    self.sum_x = self.sum_x + other.sum_x\n    self.num_samples += other.num_samples'),
 ]
